@@ -327,6 +327,9 @@ func c14(c *wk.Ctx) {
 		}
 		r.Violationf("C14|outcome=process-aborted", json.RawMessage(d.Desc), "LoadCheckpoint ended the process (exit %d): %s", d.Result.Exit, firstPanicLine(d.Result.Stderr))
 	}
+	if wk.ReplayOne(c, "c14states", nil, onDeath) {
+		return
+	}
 	n := c.N(800, 16000)
 	parts := 8
 	wk.Parallel(parts, 8, func(p int) {
